@@ -175,8 +175,7 @@ def parseProp (s : String) : Option (Sum Bytes Nat) :=
   | _ => none
 
 /-- run one editing call of replica `r`: open the transaction if needed (`ensure_transaction_open` →
-    `transaction_args`, which also prunes conflicting queued changes of the same actor), evaluate
-    the call on applied ++ pending ops, append the new ops on success -/
+    `transaction_args`), evaluate the call on applied ++ pending ops, append the new ops on success -/
 def edit (st : State) (r obj : String)
     (f : Enc → List Op → Tx → ObjId → Option (Except EditErr (List Op) × Bool)) : State × List String :=
   match parseObj obj, st.actors.find? (fun p => p.1 == r) with
@@ -185,8 +184,7 @@ def edit (st : State) (r obj : String)
     let (t, st1) := match st.txs.find? (fun p => p.1 == r) with
       | some (_, t) => (t, st)
       | none =>
-        let d' : Doc := { d with queue := removeActorBranchFrom d.queue actor (d.seqForActor actor + 1) }
-        (d.beginTx actor, setReplica st r d')
+        (d.beginTx actor, st)
     let d := getReplica st1 r
     match f st1.enc (d.ops ++ t.pending) t o with
     | none => (st1, ["bad-input"])
@@ -254,7 +252,9 @@ def exec (st : State) (toks : List String) : State × List String :=
     | none => (st, ["bad-input"])
     | some c =>
       let d := getReplica st r
-      let d' : Doc := { d with applied := d.applied ++ [c] }
+      -- `commit_impl`: the local change claims (actor, seq); queued changes of a conflicting branch of
+      -- the same actor (and their dependents) are discarded, then the change enters the history
+      let d' : Doc := { applied := d.applied ++ [c], queue := removeActorBranchFrom d.queue c.actor c.seq }
       let verdict :=
         match st.predicted.find? (fun p => p.1 == r) with
         | none => "unpredicted"
